@@ -151,7 +151,20 @@ V6 = """program progMain
   40 aVec(kk) = 0.0
 end program progMain
 """
-SOURCES = dict(V1=V1, V2=V2, V3=V3, V4=V4, V5=V5_08, V6=V6, I1=I1, I2=I2, I3=I3, I4=I4, I5=I5, IK=IK, X1=X1, X2=X2, X3=X3_08, X4=X4)
+# lines with a character literal, code after it and a trailing comment (anything memoised per line text shows here),
+# continuation lines, ';' joins, a FORMAT with literals
+V7 = """program progMain
+  character(len = 10) :: sTxt
+  integer :: iCnt ; real :: xPos ! two statements
+  print *, 'hello, ' // sTxt ! say hello
+  call subOne('total', 3 + 4) ! note
+  write(*, '(a, i3)') "it's", iCnt + 1 ! "quoted" comment
+  xPos = 1.0 + &  ! first part
+         2.0      ! second part
+  900 format (1x, 'a!b', i5) ! format
+end program progMain
+"""
+SOURCES = dict(V1=V1, V2=V2, V3=V3, V4=V4, V5=V5_08, V6=V6, V7=V7, I1=I1, I2=I2, I3=I3, I4=I4, I5=I5, IK=IK, X1=X1, X2=X2, X3=X3_08, X4=X4)
 
 
 class _Sources(dict):
@@ -288,7 +301,7 @@ def histories(ctx):
     # standard-crossing stream: statements whose classes the 2008 parser overrides, in both spellings, as
     # history; one 2008-only construct (or the 2003 spellings) as the target, under either standard
     import props.c17 as c17
-    beta = [("create", "f2003"), ("create", "f2008"), ("parse", "V4"), ("parse", "V5"), ("parse", "V6")]
+    beta = [("create", "f2003"), ("create", "f2008"), ("parse", "V4"), ("parse", "V5"), ("parse", "V6"), ("parse", "V7")]
     hb = []
     for n in range(1, 4):
         hb += list(itertools.product(beta, repeat=n))
@@ -297,7 +310,7 @@ def histories(ctx):
     for i, h in enumerate(hb):
         for std in ("f2003", "f2008"):
             tg = singles if (ctx.quick and i % 2 == 0) or not ctx.quick else singles[i % 3::3]
-            for x in tg + ["V4", "V5", "V6"]:
+            for x in tg + ["V4", "V5", "V6", "V7"]:
                 cases.append((h + (("create", std),), std, x))
     # generated programs parsed under one standard, then another generated program under the other
     for k in range(ctx.n(60, 1500)):
